@@ -883,6 +883,177 @@ static void plist_checks(bool T) {
     }
 }
 
+// =============================================================== point lists through the Vec2 overload: rounding
+// oasis_write_point_list(out, Array<Vec2>, scaling, closed) rounds coordinate*scaling to the lattice.
+// For power-of-two scalings the product is exact, so the expected lattice point is the exact
+// mathematical rounding (nearest, exact halves away from zero as llround documents), computed here
+// in integer arithmetic on the IEEE bit fields.
+static bool round_scaled(double c, int k, int64_t& out, bool& tie, bool& frac_nonzero) {   // round(c * 2^k)
+    Dec d = decomp(c);
+    tie = frac_nonzero = false;
+    if (!d.finite) return false;
+    if (d.M == 0) { out = 0; return true; }
+    int e = d.E + k;
+    u128 M = d.M, ip;
+    if (e >= 0) { if (e > 9) return false; ip = M << e; }
+    else {
+        int sh = -e;
+        if (sh >= 120) { ip = 0; frac_nonzero = true; }
+        else {
+            ip = M >> sh;
+            u128 fr = M & ((ONE << sh) - 1), half = ONE << (sh - 1);
+            frac_nonzero = fr != 0;
+            tie = fr == half;
+            if (fr >= half) ip++;
+        }
+    }
+    if (ip >= (ONE << 62)) return false;
+    out = d.neg ? -(int64_t)ip : (int64_t)ip;
+    return true;
+}
+static const int V2_K[4] = {0, 1, 10, -1};   // scalings 1, 2, 1024, 0.5
+// pts: the Vec2 coordinates handed to gdstk; sk: index into V2_K
+static void case_vec2(const std::vector<Vec2>& pts, int sk, bool closed, const char* shape) {
+    const char* sub = "oas.plist.vec2";
+    int k = V2_K[sk];
+    double s = ldexp(1.0, k);
+    std::string ps;
+    for (auto& p : pts) ps += (ps.empty() ? "" : ",") + hex64(dbits(p.x)) + "," + hex64(dbits(p.y));
+    std::string replay = fmt("sub=%s sk=%d closed=%d shape=%s pts=%s", sub, sk, (int)closed, shape, ps.c_str());
+    R->count("cases");
+    PV Vt;
+    bool any_tie = false, any_frac = false, any_big_odd = false, multi = false;
+    for (auto& p : pts) {
+        int64_t x, y;
+        bool t1, t2, f1, f2;
+        if (!round_scaled(p.x, k, x, t1, f1) || !round_scaled(p.y, k, y, t2, f2)) { R->internal_error("vec2 case outside the lattice range: " + replay); return; }
+        Vt.push_back({x, y});
+        any_tie |= t1 || t2;
+        any_frac |= f1 || f2;
+        for (int64_t n : {x, y}) {
+            uint64_t a = (uint64_t)(n < 0 ? -n : n);
+            if ((a & 1) && a >= (1ull << 52)) any_big_odd = true;
+            if (a >= 64) multi = true;
+        }
+    }
+    if (multi || any_frac) R->count("nontrivial");
+    if (any_big_odd) R->count("vec2_lists_with_odd_coordinate_in_2^52..2^53");
+    if (any_tie) R->count("vec2_lists_with_exact_half");
+    const char* kind = any_tie ? "exact_half" : any_frac ? "fraction_non_tie" : "exact_integer";
+    JFields tags = {{"kind", jstr(kind)}, {"odd_coordinate_in_2^52..2^53", jbool(any_big_odd)}, {"scaling", jstr(fmt("%g", s))}, {"closed", jbool(closed)}, {"shape", jstr(shape)}};
+    Array<Vec2> av = {};
+    for (auto& p : pts) av.append(p);
+    WS w;
+    oasis_write_point_list(w.s, av, s, closed);
+    av.clear();
+    Bytes enc = w.bytes();
+    R->count("codec_calls");
+    R->outcome(sub, fmt("type=%d closed=%d kind=%s", enc.empty() ? -1 : enc[0], (int)closed, kind));
+    PV rel = {{0, 0}}, got;
+    size_t pos = 0;
+    bool refok = get_plist(enc, pos, closed, rel) && pos == enc.size();
+    for (auto& p : rel) got.push_back({Vt[0].x + p.x, Vt[0].y + p.y});
+    auto cj = [&](const std::string& g) {
+        std::vector<std::string> in;
+        for (auto& p : pts) in.push_back(fmt("[%.17g,%.17g]", p.x, p.y));
+        return jobj({{"coordinates", jarr(in)}, {"scaling", jnum(s)}, {"closed", jbool(closed)}, {"exact_rounding_of_coordinate_times_scaling", jpts(Vt)}, {"encoding", jstr(hexb(enc))}, {"gdstk", jstr(g)}});
+    };
+    VLOG("write_point_list(Vec2 %s, scaling %g, closed=%d) -> %s ; denotes %s (first vertex taken from the expectation) ; exact rounding %s%s\n", cj("").c_str(), s, (int)closed, hexb(enc).c_str(),
+         refok ? jpts(got).c_str() : "malformed", jpts(Vt).c_str(), refok && got == Vt ? "" : "  ** differs **");
+    if (!refok || got != Vt) {
+        R->violation(sub, std::string("written_list_is_not_the_rounded_list:") + kind, tags, cj(refok ? jpts(got) : "malformed"),
+                     "the list written by the Vec2 overload is not the exact rounding of coordinate*scaling (nearest lattice point, exact halves away from zero)", replay);
+        return;
+    }
+    // same lattice points through the IntVec2 overload: same bytes
+    Array<IntVec2> ai = {};
+    for (auto& p : Vt) ai.append(IntVec2{p.x, p.y});
+    WS w2;
+    oasis_write_point_list(w2.s, ai, closed);
+    ai.clear();
+    R->count("codec_calls");
+    if (w2.bytes() != enc) R->violation(sub, "vec2_writer_differs", tags, cj(hexb(w2.bytes())), "Vec2 and IntVec2 overloads write different bytes for the same lattice points", replay);
+    // read back with the inverse scaling: for lattice inputs this must reproduce the coordinates exactly
+    if (!any_frac) {
+        PlRead o = gd_read_plist(enc, pts[0], ldexp(1.0, -k), closed);
+        bool same = o.ec == ErrorCode::NoError && o.pts.size() == pts.size();
+        for (size_t i = 0; same && i < pts.size(); i++) same = o.pts[i].x == pts[i].x && o.pts[i].y == pts[i].y;
+        if (!same) R->violation(sub, "list_changed", tags, cj(jvec(o.pts)), "read(write(list)) with inverse scaling != list", replay);
+    }
+}
+struct V2Case { int64_t nx, ny; int shape; int64_t delta; int closed; int sk; };
+static const char* const V2SHAPE[6] = {"manhattan_h_first", "manhattan_v_first", "manhattan_2delta", "octangular", "general", "single_delta"};
+static std::vector<Vec2> v2_points(const V2Case& c) {
+    // deltas point towards zero so that every coordinate stays within +-(2^53-1)
+    int64_t ux = c.nx > 0 ? -c.delta : c.delta, uy = c.ny > 0 ? -c.delta : c.delta;
+    static const int SH[6][3][2] = {{{1, 0}, {0, 1}, {-1, 0}}, {{0, 1}, {1, 0}, {0, -1}}, {{1, 0}, {1, 0}, {0, 1}}, {{1, 1}, {1, -1}, {0, 1}}, {{1, 2}, {1, -1}, {-1, 1}}, {{1, 0}, {0, 0}, {0, 0}}};
+    int k = V2_K[c.sk];
+    std::vector<Vec2> pts;
+    int64_t x = c.nx, y = c.ny;
+    pts.push_back(Vec2{ldexp((double)x, -k), ldexp((double)y, -k)});
+    for (int i = 0; i < (c.shape == 5 ? 1 : 3); i++) {
+        x += SH[c.shape][i][0] * ux;
+        y += SH[c.shape][i][1] * uy;
+        pts.push_back(Vec2{ldexp((double)x, -k), ldexp((double)y, -k)});
+    }
+    return pts;
+}
+static void vec2_checks(bool T) {
+    // lattice targets: every 7-bit group boundary up to 2^53-1 and odd integers in [2^52, 2^53)
+    std::set<int64_t> ns;
+    const int64_t LIM = (1ll << 53) - 1;
+    for (int k = 0; k <= 53; k++)
+        for (int j = -1; j <= 1; j++) { int64_t v = (1ll << k) + j; if (v >= 0 && v <= LIM) ns.insert(v); }
+    for (int i = 0; i < 8; i++) { int64_t v = 0x7fll << (7 * i); if (v <= LIM) ns.insert(v); }
+    for (int64_t o : {1ll, 3ll, 5ll, 0xffll, (1ll << 26) + 1, (1ll << 51) + 1, (1ll << 51) - 1, 0x5555555555555ll, 0xfffffffffffffll - 2, 0xaaaaaaaaaaaabll, 0x123456789abcdll}) ns.insert(((1ll << 52) | o) & LIM);
+    std::vector<int64_t> N(ns.begin(), ns.end());
+    std::vector<int64_t> deltas = T ? std::vector<int64_t>{1, 2, 63, 64, 8191, 8192, (1ll << 20) + 1, 1ll << 34, (1ll << 48) - 1, (1ll << 51) + 1}
+                                    : std::vector<int64_t>{1, 64, 8191, (1ll << 34) + 1, (1ll << 51) + 1};
+    std::vector<V2Case> cs;
+    for (int64_t d : deltas)
+        for (int64_t n : N)
+            for (int sg = 0; sg < 2; sg++)
+                for (int pair = 0; pair < 4; pair++) {
+                    int64_t a = sg ? -n : n;
+                    int64_t nx = pair == 3 ? 3 : a, ny = pair == 0 ? a : pair == 1 ? -a : pair == 2 ? 3 : a;
+                    for (int sh = 0; sh < 6; sh++)
+                        for (int closed = 0; closed < 2; closed++)
+                            for (int sk = 0; sk < 4; sk++) cs.push_back({nx, ny, sh, d, closed, sk});
+                }
+    run_cases<V2Case>("oas.plist.vec2.lattice",
+                      fmt("Vec2 overload, scalings {1,2,1024,0.5}: first vertex (n,n),(n,-n),(n,3),(3,n) with |n| from %d values (0, 2^k-1, 2^k, 2^k+1 for k<=53, 7-bit group patterns, 11 odd integers in [2^52,2^53)) x both signs x 6 shapes (manhattan h/v first, 2-delta, octangular, general, single delta) x %d delta magnitudes x open/closed; expected = exact lattice points",
+                          (int)N.size(), (int)deltas.size()),
+                      cs, 2048, [](const V2Case& c) { case_vec2(v2_points(c), c.sk, c.closed != 0, V2SHAPE[c.shape]); },
+                      [](const V2Case& c) { return jobj({{"nx", jint(c.nx)}, {"ny", jint(c.ny)}, {"shape", jstr(V2SHAPE[c.shape])}, {"delta", jint(c.delta)}, {"closed", jint(c.closed)}, {"scaling", jnum(ldexp(1.0, V2_K[c.sk]))}}); });
+    // fractional coordinates: exact halves, their neighbours, just-below-half
+    struct FCase { double x; int closed; int sk; };
+    std::set<uint64_t> xs;
+    auto addx = [&](double v) { xs.insert(dbits(v)); xs.insert(dbits(-v)); };
+    for (int64_t k : {0ll, 1ll, 2ll, 3ll, 4ll, 63ll, 64ll, 8191ll, 8192ll, 1ll << 20, (1ll << 34) - 1, (1ll << 50) - 1, 1ll << 50, (1ll << 50) + 1}) {
+        double h = (double)k + 0.5;
+        addx(h);
+        addx(dfrom(dbits(h) - 1));
+        addx(dfrom(dbits(h) + 1));
+        addx((double)k + 0.25);
+        addx((double)k + 0.75);
+    }
+    for (double v : {0.49999999999999994, 0.5000000000000001, 0.99999999999999989, 1e-300, 4.9406564584124654e-324, 0.1, 0.9, 2.5, 1e15 + 0.5, 1e15 + 0.25}) addx(v);
+    std::vector<FCase> fs;
+    for (uint64_t b : xs)
+        for (int closed = 0; closed < 2; closed++)
+            for (int sk = 0; sk < 4; sk++) fs.push_back({dfrom(b), closed, sk});
+    run_cases<FCase>("oas.plist.vec2.fraction",
+                     fmt("Vec2 overload, scalings {1,2,1024,0.5}: %d values x (k+0.5, its two neighbouring doubles, k+0.25, k+0.75 for 14 k up to 2^50+1; 0.49999999999999994; tiny; ...) x both signs placed as coordinates of a 4-vertex list [(x,0),(10,0),(10,x),(0,x)] (coordinate = x/scaling) x open/closed; expected = nearest lattice point, exact halves away from zero",
+                         (int)xs.size()),
+                     fs, 256,
+                     [](const FCase& c) {
+                         int k = V2_K[c.sk];
+                         double x = ldexp(c.x, -k), ten = ldexp(10.0, -k);
+                         case_vec2({Vec2{x, 0}, Vec2{ten, 0}, Vec2{ten, x}, Vec2{0, x}}, c.sk, c.closed != 0, "fraction");
+                     },
+                     [](const FCase& c) { return jobj({{"x", jdbl(c.x)}, {"closed", jint(c.closed)}, {"scaling", jnum(ldexp(1.0, V2_K[c.sk]))}}); });
+}
+
 static std::vector<int64_t> parse_i64s(const std::string& s) {
     std::vector<int64_t> v;
     size_t p = 0;
@@ -901,6 +1072,18 @@ static bool replay_more(const std::string& sub) {
     }
     if (sub == "oas.real.roundtrip") { case_real_roundtrip({dfrom((uint64_t)parse_hex128(R->rarg("v"))), false}); return true; }
     if (sub == "oas.real.decode") { case_real_decode({atoi(R->rarg("type").c_str()), parse_hex128(R->rarg("a")), parse_hex128(R->rarg("b"))}); return true; }
+    if (sub == "oas.plist.vec2") {
+        std::vector<Vec2> pts;
+        std::string ps = R->rarg("pts");
+        std::vector<uint64_t> b;
+        size_t q = 0;
+        while (q < ps.size()) { size_t e = ps.find(',', q); if (e == std::string::npos) e = ps.size(); b.push_back((uint64_t)parse_hex128(ps.substr(q, e - q))); q = e + 1; }
+        for (size_t i = 0; i + 1 < b.size(); i += 2) pts.push_back(Vec2{dfrom(b[i]), dfrom(b[i + 1])});
+        static std::string shape;
+        shape = R->rarg("shape");
+        case_vec2(pts, atoi(R->rarg("sk").c_str()), atoi(R->rarg("closed").c_str()) != 0, shape.c_str());
+        return true;
+    }
     if (sub == "oas.plist.roundtrip" || sub == "oas.plist.decode") {
         std::vector<int64_t> n = parse_i64s(R->rarg("deltas"));
         int64_t mult = atoll(R->rarg("mult").c_str());
@@ -916,6 +1099,7 @@ static void more_checks() {
     g2_checks();
     real_checks(T);
     plist_checks(T);
+    vec2_checks(T);
 }
 
 
